@@ -137,6 +137,9 @@ func evalVar(c vCase) *vMismatch {
 		if k := s("genv"); k != "none" {
 			root += "env: {" + varDef(k, "genv", "E") + "}\n"
 		}
+		if b("evar") {
+			root += "vars: {E: var-e}\n"
+		}
 		if g := s("gdot"); g != "none" {
 			root += "dotenv: ['.genv1', '.genv2']\n"
 			files[".genv1"], files[".genv2"] = "OTHER=1\n", "OTHER=2\n"
